@@ -1,15 +1,15 @@
 SPECIFICATION Spec
 CONSTANTS
   Keys = {1}
-  Writers = {1}
+  Writers = {1, 2}
   Depth0 = 0
-  MaxArr = 3
-  MaxSteps = 4
-  Forms = {"read", "take_inst", "read_inst"}
-  Kinds = {"V", "D"}
-  Retransmit = TRUE
-  NoKey = FALSE
-  GenK = 10
+  MaxArr = 4
+  MaxSteps = 6
+  Forms = {"nk_take", "nk_read", "nk_take_next"}
+  Kinds = {"V", "X", "KD"}
+  Retransmit = FALSE
+  NoKey = TRUE
+  GenK = 40
 CONSTRAINT Bound
 VIEW View
 INVARIANT SCInv_NoViolation
